@@ -25,7 +25,7 @@ pub fn run(env: &mut Env) -> Outcome {
     let mut accepted: Vec<Sub> = Vec::new();
     for k in 0..n {
         // interleaved server traffic
-        let traffic = ctxrc.borrow_mut().choose("traffic", 4);
+        let traffic = ctxrc.borrow_mut().choose("traffic", 5);
         if traffic != 0 {
             {
                 let mut ctx = ctxrc.borrow_mut();
@@ -37,6 +37,16 @@ pub fn run(env: &mut Env) -> Outcome {
                         srv.send_fastpath("fast-path", &u, false);
                     }
                     2 => { drop(ctx); srv.send_data_pdu("set-error-info", 0x2f, &build::set_error_info_payload(0)); }
+                    4 => {
+                        // a share-control PDU the client does not implement (server redirection / unknown type): reading it
+                        // may fail, the session goes on
+                        let t = *ctx.pick("sc_type", &[0x1au16, 0x12, 0x1f]);
+                        drop(ctx);
+                        let mut b = crate::refsrv::bytes::Wr::new();
+                        b.u16le("redir.pad", 0).u16le("redir.flags", 0x0400).u16le("redir.length", 12).u32le("redir.sessionId", 1).u32le("redir.redirFlags", 0);
+                        let w = build::send_data_indication(&srv.p, &build::share_control(&srv.p, t, &b));
+                        srv.queue("unimplemented-share-control-pdu", &w);
+                    }
                     _ => {
                         drop(ctx);
                         let mut w = crate::refsrv::bytes::Wr::new();
